@@ -11,7 +11,7 @@
 -/
 import Cog.Sem.WidenFrame
 import Cog.Passes.Chain
-namespace Cog.Sem
+namespace Cog.Sem.Src
 open Cog.IR Cog.Passes
 
 /-! ### membership facts from `Plain` -/
@@ -413,4 +413,4 @@ theorem AnonymousEnumToExplicitType_plain (S : Schemas) (h : Plain S = true) :
   simp [AnonymousEnumToExplicitType.processSchema,
     AETE_processObjects_plain s.pkg s.objects [] (fun ko hk => plainSchema_obj hp hk), addObjects]
 
-end Cog.Sem
+end Cog.Sem.Src
